@@ -194,7 +194,7 @@ func ZZVerifC14() {
 		}
 	}
 	items = append(items, "0 0") // empty script
-	budget := 110 * gotime.Second
+	budget := 200 * gotime.Second
 	if thorough {
 		budget = 18 * gotime.Minute
 	}
